@@ -7,11 +7,14 @@ import (
 	"encoding/hex"
 	"encoding/json"
 	"fmt"
+	"io"
 	"regexp"
 
 	"github.com/datastax/go-cassandra-native-protocol/compression/lz4"
 	"github.com/datastax/go-cassandra-native-protocol/compression/snappy"
 	"github.com/datastax/go-cassandra-native-protocol/frame"
+	"github.com/datastax/go-cassandra-native-protocol/message"
+	"github.com/datastax/go-cassandra-native-protocol/primitive"
 
 	"verif/internal/bridge"
 	"verif/internal/cases"
@@ -56,6 +59,25 @@ func errClass(err error) string {
 // compressible: any frame but STARTUP may carry the COMPRESSED flag once compression is agreed (v4 §5: "a
 // STARTUP message must never be compressed"); OPTIONS and READY have empty bodies, and the library's own server
 // does compress READY.
+// poison runs an encode that is expected to FAIL after part of the body was produced (a QUERY whose serial
+// consistency is not a serial level: the length computation accepts it, the encoder refuses it after writing the
+// query string, consistency, flags and values). A codec must not carry anything over from a failed call into the
+// next one: the valid frame encoded right afterwards on the same goroutine must still round-trip.
+func poison(codec frame.RawCodec, v ref.Version, compressed bool, c *mon.Ctx) {
+	one := primitive.ConsistencyLevelOne
+	q := &message.Query{Query: "INSERT INTO poison.t (a, b) VALUES (?, ?) /* left over from a failed encode */",
+		Options: &message.QueryOptions{PositionalValues: []*primitive.Value{primitive.NewValue([]byte("stale")), primitive.NewNullValue()}, SerialConsistency: &one}}
+	f := frame.NewFrame(primitive.ProtocolVersion(v), 1, q)
+	if compressed {
+		f.Header.Flags = f.Header.Flags.Add(primitive.HeaderFlagCompressed)
+	}
+	if err := codec.EncodeFrame(f, io.Discard); err == nil {
+		c.Count("poison_encode_unexpectedly_succeeded", 1)
+	} else {
+		c.Count("poison_encodes_refused", 1)
+	}
+}
+
 func compressible(op byte) bool {
 	return op != ref.OpStartup
 }
@@ -129,6 +151,9 @@ func one(c *mon.Ctx, codec frame.RawCodec, comp string, cs gen.Case, id string, 
 	f := bridge.ToLib(a, flag, vr)
 	d := detail{ID: id, Comp: comp, Flag: flag, Frame: lazyFrame{a}, Seed: c.Seed, Varied: hash(id) ^ stream}
 	c.Eval(1)
+	if hash(id)%3 == 0 {
+		poison(codec, a.Version, flag, c)
+	}
 	var buf bytes.Buffer
 	if err := codec.EncodeFrame(f, &buf); err != nil {
 		d.Err = err.Error()
